@@ -289,7 +289,8 @@ pub fn run(tier: Tier, shard: Shard, rep: &mut Report) {
         {set, put, get, touch, ensure, set_temp_file, put_temp_file} and five writer/reader programs again with values of 0 B and 3 x 8 KiB and \
         with handles built with auto_sync(false) (neither may change an answer); set/put of values staged in the cache's own temp_dir(), a minute \
         or two hours old, with the write's maintenance firing or not: an acknowledged write is what a later get reads, a failed one changed nothing; \
-        and get/touch/put/set with each call failing in each plausible way: the failure is reported or the answer is the specification's. Each execution's call/return history (stamped in \
+        and get/touch/put/set with each call failing in each plausible way: the failure is reported or the answer is the specification's, and a handle obtained \
+        by an earlier get still reads its value. Each execution's call/return history (stamped in \
         scheduler steps; ensure decomposed into lookup / put / lookup) is checked by Wing-Gong search against the register-with-put \
         specification. Non-trivial = execution with at least one preemption; outcomes = distinct (results, final contents)."
         .into();
@@ -324,6 +325,8 @@ pub fn run(tier: Tier, shard: Shard, rep: &mut Report) {
     staged_source_section(shard, rep);
     crate::run::reset_env();
     faulted_answers_section(shard, rep);
+    crate::run::reset_env();
+    earlier_handle_section(shard, rep);
 }
 
 /// Values staged in the cache's own temporary directory (the documented workflow), young or already older than the
@@ -492,7 +495,67 @@ fn faulted_answers_section(shard: Shard, rep: &mut Report) {
     }
 }
 
+/// A get that returned before a write was called keeps reading the value it was given, whatever that write runs into
+/// (every call failing in every plausible way, EXDEV on the rename included): a write replaces the entry, it never
+/// rewrites the published file in place.
+fn earlier_handle_section(shard: Shard, rep: &mut Report) {
+    use crate::props::c02::fault_free;
+    use crate::props::c18::{plausible, FailAt};
+    use crate::props::scn::{self, Scn};
+    use std::io::Read;
+    let mut no = 0u64;
+    for front in ["plain", "sharded"] {
+        for op in ["set", "set_temp_file", "set_chunks", "replace", "put"] {
+            let scn = Scn { front: front.into(), pre: "present".into(), op: op.into() };
+            let (n, trace, _res) = fault_free(&scn);
+            for k in 0..n {
+                for a in plausible(&trace[k], true) {
+                    no += 1;
+                    if !shard.mine(no) {
+                        continue;
+                    }
+                    let w = scn::setup(&scn);
+                    let path = w.home.join("key");
+                    let mut earlier = match crate::shim::passthrough(|| std::fs::File::open(&path)) {
+                        Ok(f) => f,
+                        Err(_) => continue,
+                    };
+                    let cache = w.cache();
+                    let ctl = std::sync::Arc::new(FailAt { faults: vec![(k as u64, a)], kinds: vec![Some(trace[k].kind)], n: std::sync::atomic::AtomicU64::new(0), hit: std::sync::Mutex::new(vec![]) });
+                    crate::shim::set_controller(Some(ctl));
+                    let (_r, t) = crate::run::as_participant(0, 0, || {
+                        crate::run::trigger_never();
+                        crate::ops::exec(&cache, &w.dirs, &w.op, &Default::default())
+                    });
+                    crate::shim::set_controller(None);
+                    rep.evaluations += 1;
+                    rep.states += 1;
+                    rep.traces += 1;
+                    rep.transitions += t.len() as u64;
+                    rep.count("earlier_handle_cases", 1);
+                    let mut got = Vec::new();
+                    let _ = crate::shim::passthrough(|| earlier.read_to_end(&mut got));
+                    if got != scn::v_old().bytes() {
+                        rep.violation(
+                            "history:published-value-rewritten",
+                            format!(
+                                "{} with call {} ({}) failing {:?}: a handle obtained before the write now reads {} instead of the value it was given",
+                                scn.to_json(), k, trace[k].func, a, world::describe_bytes(&got)
+                            ),
+                            serde_json::json!({"earlier_handle_section": true}),
+                        );
+                    }
+                }
+            }
+        }
+    }
+}
+
 pub fn replay(case: &Value, rep: &mut Report) {
+    if case.get("earlier_handle_section").is_some() {
+        earlier_handle_section(Shard { index: 0, count: 1 }, rep);
+        return;
+    }
     if case.get("faulted_answers_section").is_some() {
         faulted_answers_section(Shard { index: 0, count: 1 }, rep);
         return;
